@@ -23,6 +23,8 @@ type FG struct {
 	byAST map[ast.Node]*GNode
 	// clause → owning switch (for case edges)
 	swOf map[*ast.CaseClause]ast.Stmt
+	// locals with a single plain definition (lazy; see withLocals)
+	localDefs map[types.Object]ast.Expr
 }
 
 type GNode struct {
